@@ -28,12 +28,19 @@ func genSchedSpec(p *schedParams, c *Corpus, run int, cold bool) *RunSpec {
 	if cold {
 		eng = "sched-cold"
 	}
+	if deepBuild {
+		eng += "-deep"
+	}
 	seed := runSeed(p.verifSeed, eng+"-"+p.prop, run)
 	root := NewRng(seed)
 	rc, rd, ro, rf, rs := root.Split("config"), root.Split("docs"), root.Split("ops"), root.Split("faults"), root.Split("schedule")
+	c15 := p.prop == "C15"
 	cfg := genConfig(rc, "any")
 	if rc.Chance(1, 8) || (cold && rc.Chance(1, 2)) {
 		cfg = Config{}
+	}
+	if c15 {
+		cfg = genConfig(rc, "c15")
 	}
 	maxW := 4
 	if p.tier == "thorough" {
@@ -44,11 +51,20 @@ func genSchedSpec(p *schedParams, c *Corpus, run int, cold bool) *RunSpec {
 		n = ro.Range(2, 3)
 	}
 	spec := &RunSpec{Property: p.prop, Engine: "sched", VerifSeed: p.verifSeed, Run: run, RunSeed: fmt.Sprintf("%#x", seed), Cfg: cfg,
-		Fresh: cold || ro.Chance(7, 10), Cold: cold}
+		Fresh: cold || ro.Chance(7, 10), Cold: cold, Deep: deepBuild}
 	// documents
 	var docs [][]byte
 	herd := rd.Chance(1, 2)
 	switch {
+	case c15:
+		// collision-dense heading documents, all workers on the same shared instance
+		for i := 0; i < n+rd.Intn(3); i++ {
+			if rd.Chance(5, 6) {
+				docs = append(docs, genHeadingDoc(rd))
+			} else {
+				docs = append(docs, genFamily(rd, "heading"))
+			}
+		}
 	case cold:
 		// the process's very first conversions: whatever is initialised lazily at package
 		// level (today the entity table; a change could add more) is first touched here, so
@@ -97,6 +113,12 @@ func genSchedSpec(p *schedParams, c *Corpus, run int, cold bool) *RunSpec {
 			op := Op{Doc: d, Stack: genStack(ro), Ctx: ro.Chance(4, 5), Reader: ro.Chance(3, 4)}
 			x := ro.Intn(100)
 			switch {
+			case c15 && x < 50:
+				op.Kind = "Convert"
+			case c15 && x < 90:
+				op.Kind = "ParseRender"
+			case c15:
+				op.Kind = "ParseOnly"
 			case mode == 0:
 				if (i+j)%2 == 0 {
 					op.Kind = "ParseOnly"
@@ -120,7 +142,7 @@ func genSchedSpec(p *schedParams, c *Corpus, run int, cold bool) *RunSpec {
 				treeN++
 				op.Tree = treeN
 			}
-			if op.Kind != "ParseOnly" && rf.Chance(1, 8) {
+			if !c15 && op.Kind != "ParseOnly" && rf.Chance(1, 8) {
 				op.Fault = genFault(rf, 200)
 			}
 			ops = append(ops, op)
@@ -143,6 +165,9 @@ func schedRunOne(p *schedParams, st *Stats, spec *RunSpec) {
 		return
 	}
 	st.Inc("evaluations")
+	if spec.Deep {
+		st.Inc("deep_runs")
+	}
 	st.Inc("policy." + spec.Policy)
 	st.Inc(fmt.Sprintf("workers.%d", len(spec.Clients)))
 	if spec.Fresh {
